@@ -287,7 +287,7 @@ def rule_G2c(ctx):
     comp, _run = cg.entry_sets(ctx.F)
     r = _g2(ctx, "G2c", comp, "compile", "panic-free (compile set): every panic-capable site reachable from lex / Lexer::next / parse / build is in the reviewed allow-list")
     r.floor("compile entry points", len(comp), 4)
-    r.floor("functions reachable from the compile entry points", r.analysed["reachable_functions"], 200)
+    r.floor("functions reachable from the compile entry points", r.analysed["reachable_functions"], 100)
     _controls(ctx, r)
     return r
 
@@ -296,7 +296,7 @@ def rule_G2r(ctx):
     _comp, run = cg.entry_sets(ctx.F)
     r = _g2(ctx, "G2r", run, "run", "panic-free (run set): every panic-capable site reachable from execute_current_instruction / the 55 instruction functions (both data impls, SimpleNumber) is in the reviewed allow-list")
     r.floor("run entry points", len(run), 56)
-    r.floor("functions reachable from the run entry points", r.analysed["reachable_functions"], 450)
+    r.floor("functions reachable from the run entry points", r.analysed["reachable_functions"], 250)
     _controls(ctx, r)
     return r
 
@@ -347,7 +347,7 @@ def _g1(ctx, rid, roots, title):
 def rule_G1c(ctx):
     comp, _ = cg.entry_sets(ctx.F)
     r = _g1(ctx, "G1c", comp, "no-recursion (compile set): the call graph reachable from lex / parse / build is acyclic (explicit work stacks)")
-    r.floor("functions reachable from the compile entry points", r.analysed["reachable_functions"], 200)
+    r.floor("functions reachable from the compile entry points", r.analysed["reachable_functions"], 100)
     # control: a recursive helper in the fixture must be seen as a cycle
     g = cg.get(ctx)
     fx = set(f["path"] for f in ctx.F.fns_in("gfixture::g1::"))
@@ -362,7 +362,7 @@ def rule_G1c(ctx):
 def rule_G1r(ctx):
     _, run = cg.entry_sets(ctx.F)
     r = _g1(ctx, "G1r", run, "no-unbounded-recursion (run set): every recursive cycle reachable from the instruction functions is allow-listed with its depth bound")
-    r.floor("functions reachable from the run entry points", r.analysed["reachable_functions"], 450)
+    r.floor("functions reachable from the run entry points", r.analysed["reachable_functions"], 250)
     return r
 
 
